@@ -537,11 +537,14 @@ def run_c02(prop, tier):
         def one_eq(j):
             prog, sh = j
             cd = os.path.join(base, "c%d" % os.getpid())
-            rc, err, log = run_case(exe, cd, proto(prog), sh)
+            rc, err, log = run_case(exe, cd, proto(prog) if "E" not in prog else ["X"] + prog, sh)
             msg = oracle(cd, log, rc, err)
             emsg = emu(cd) if msg is None else None
             return msg, emsg
-        alljobs = [(p, "-") for p in eqjobs] + swjobs
+        # explicit flushes after the end event (each flush leaves its markers behind the events it wrote: the stream then ends
+        # with OHe OF[ OF], a thread that is over still flushing)
+        tailjobs = [(["e0", "E", "f"], "-"), (["e0", "E", "f", "f"], "-"), (["e16", "e16", "e16", "E", "f", "f"], "-"), (["j60", "E", "f", "f", "f"], "-")]
+        alljobs = [(p, "-") for p in eqjobs] + swjobs + tailjobs
         for (prog, sh), (msg, emsg) in zip(alljobs, pmap(one_eq, alljobs)):
             ctx.add(evaluations=1, transitions=len(prog) + 2, traces_validated_against_impl=1)
             if msg == "ABORTED":
